@@ -314,49 +314,52 @@ Fixpoint get_all (m : omap) (hs : list hash) : option (list entry) :=
                 end
   end.
 
+(* the start set: the sorted heads, or the given LTE entries, or the predecessors of the last LT entry *)
+Definition iter_start (l : log) (o : iter_opts) : outcome (list entry) :=
+  let start0 := oslice (sorted_heads l) in
+  match it_lte o with
+  | Some hs => match get_all (l_entries l) hs with Some es => Ok es | None => Err ELteNotFound end
+  | None =>
+    match it_lt o with
+    | Some hs =>
+      fold_left (fun acc c =>
+          match acc with
+          | Ok _ => match oget (l_entries l) c with
+                    | None => Err ELtNotFound
+                    | Some e => match get_all (l_entries l) (e_next e) with
+                                | Some es => Ok es | None => Err ELtNotFound end
+                    end
+          | other => other
+          end) hs (Ok start0)
+    | None => Ok start0
+    end
+  end.
+
+Definition iter_end (o : iter_opts) : option hash :=
+  match it_gte o with Some h => Some h | None => it_gt o end.
+Definition iter_amount (o : iter_opts) : Z := match it_amount o with Some a => a | None => -1 end.
+Definition iter_count (o : iter_opts) : Z :=
+  match iter_end o, it_amount o with None, Some _ => iter_amount o | _, _ => -1 end.
+
+(* what happens to the traversed entries before they are emitted *)
+Definition iter_post (o : iter_opts) (es : list entry) : list entry :=
+  let es1 := match it_gt o with Some _ => removelast es | None => es end in
+  let bounded := match it_gt o, it_gte o with None, None => false | _, _ => true end in
+  if bounded && (-1 <? iter_amount o) && (iter_amount o <? Z.of_nat (length es1))
+  then skipn (Z.to_nat (Z.of_nat (length es1) - iter_amount o)) es1 else es1.
+
 (* result: emitted entries (in order) and whether the output channel was closed *)
 Definition iterator (l : log) (o : iter_opts) : outcome (list entry * bool) :=
   match it_amount o with
   | Some 0 => Ok ([], true)                   (* closes the channel and returns nil *)
   | _ =>
-    let amount := match it_amount o with Some a => a | None => -1 end in
-    let start0 := oslice (sorted_heads l) in
-    let start : outcome (list entry) :=
-      match it_lte o with
-      | Some hs => match get_all (l_entries l) hs with Some es => Ok es | None => Err ELteNotFound end
-      | None =>
-        match it_lt o with
-        | Some hs =>
-          fold_left (fun acc c =>
-              match acc with
-              | Ok _ => match oget (l_entries l) c with
-                        | None => Err ELtNotFound
-                        | Some e => match get_all (l_entries l) (e_next e) with
-                                    | Some es => Ok es | None => Err ELtNotFound end
-                        end
-              | other => other
-              end) hs (Ok start0)
-        | None => Ok start0
-        end
-      end in
-    match start with
+    match iter_start l o with
     | Err k => Err k
     | Panic => Panic
     | Ok st =>
-      let endh := match it_gte o with Some h => Some h | None => it_gt o end in
-      let count := match endh, it_amount o with None, Some _ => amount | _, _ => -1 end in
-      match traverse (l_entries l) (l_sort l) (from_entries st) count endh with
+      match traverse (l_entries l) (l_sort l) (from_entries st) (iter_count o) (iter_end o) with
       | None => Panic
-      | Some m =>
-        let es := oslice m in
-        let es1 := match it_gt o, it_gte o with
-                   | Some _, None => removelast es    (* GT defined (and GTE not, else endHash is GTE but GT still trims) *)
-                   | Some _, Some _ => removelast es
-                   | None, _ => es end in
-        let bounded := match it_gt o, it_gte o with None, None => false | _, _ => true end in
-        if bounded && (-1 <? amount) && (amount <? Z.of_nat (length es1)) then
-          Ok (skipn (Z.to_nat (Z.of_nat (length es1) - amount)) es1, true)
-        else Ok (es1, true)
+      | Some m => Ok (iter_post o (oslice m), true)
       end
     end
   end.
